@@ -18,9 +18,12 @@ def raising(idx):
   raise KeyError("no such sample")
 
 
-def index_variants(rng, idx):
-  """the same indices as other integer dtypes / nested list / negative indices"""
+def index_variants(rng, idx, n=None):
+  """the same indices as other integer dtypes / nested list / (when the number n of points is given) counted from the end"""
   out = [('int64', idx.astype(np.int64)), ('int32', idx.astype(np.int32)), ('list', idx.tolist())]
+  if n is not None:
+    out.append(('negative', idx.astype(np.int64) - n))                                  # X[i - n] is X[i]
+    out.append(('mixed sign', np.where(idx % 2 == 0, idx, idx.astype(np.int64) - n)))
   if idx.max() < 127:
     out.append(('int8', idx.astype(np.int8)))
     out.append(('uint8', idx.astype(np.uint8)))
@@ -88,7 +91,7 @@ def one_spec(ctx, name, kw, data, pkinds, tag):
     pre = X if pkind == 'ndarray' else X.tolist() if pkind == 'list' else counting
     kwp = dict(kw)
     kwp['preprocessor'] = pre
-    for iname, tidx in ([('int64', train_idx)] + (index_variants(rng, train_idx)[1:] if thorough or pkind == 'ndarray' else [])):
+    for iname, tidx in ([('int64', train_idx)] + (index_variants(rng, train_idx, len(X))[1:] if thorough or pkind == 'ndarray' else [])):
       ctx.count('fit_indices_vs_formed', 1)
       ctx.seen((name, 'fit', pkind, iname, tag), True)
       try:
@@ -142,7 +145,7 @@ def one_spec(ctx, name, kw, data, pkinds, tag):
       calls += [('predict', tup_idx, X[tup_idx], ()), ('decision_function', tup_idx, X[tup_idx], ())]
       calls += [('score', tup_idx, X[tup_idx], (ypm,) if ts == 2 else ())]
     for meth, idx, formed, more in calls:
-      for iname, iv in index_variants(rng, idx):
+      for iname, iv in index_variants(rng, idx, len(X) if pkind != 'callable' or True else None):
         ctx.count('query_indices_vs_formed', 1)
         ctx.seen((name, meth, pkind, iname, tag), True)
         ctx.hist('method', meth)
